@@ -119,7 +119,7 @@ class FabRun:
         me = self
 
         def observe(sc):
-          l = sc.log[-1]
+          l = sc.log[sc.last_rec]
           seq, th, op, obj, args, r = l
           if obj in ("pq_fifo", "pq_lifo"):
             kind = obj[3:]
